@@ -55,3 +55,8 @@ def run(tier):
     finally:
         shutil.rmtree(cache_dir, ignore_errors=True)
     return out.finish()
+
+
+def replay_file(path):
+    from harness import replayfile
+    return replayfile.replay_term(path, "harness.modes:c03", "C03")
